@@ -221,7 +221,7 @@ def _multiply_units(unit1, unit2):
 
 @_unit_rule_cache
 def _preserve_units(unit1, unit2=None):
-    if unit2 is None or unit1.dimensions is not temperature:
+    if unit2 is None or unit1.dimensions != temperature:
         return 1, unit1
     if unit1.base_offset == 0.0 and unit2.base_offset != 0.0:
         return 1, unit2
@@ -230,7 +230,7 @@ def _preserve_units(unit1, unit2=None):
 
 @_unit_rule_cache
 def _difference_units(unit1, unit2=None):
-    if unit1.dimensions is not temperature:
+    if unit1.dimensions != temperature:
         return _preserve_units(unit1, unit2)
 
     s1 = repr(unit1)
@@ -1872,7 +1872,7 @@ class unyt_array(np.ndarray):
             # Unary ufuncs
             inp = inputs[0]
             u = getattr(inp, "units", None)
-            if u.dimensions is angle and ufunc in trigonometric_operators:
+            if u.dimensions == angle and ufunc in trigonometric_operators:
                 # ensure np.sin(90*degrees) works as expected
                 inp = inp.in_units("radian").v
             # get unit of result first: a refused operation must not have
@@ -1940,7 +1940,7 @@ class unyt_array(np.ndarray):
 
             if (
                 unit_operator is _preserve_units
-                and u0.dimensions is temperature
+                and u0.dimensions == temperature
                 and u1 is not None
                 and u1.base_offset != 0.0
                 and u0.base_offset == 0.0
@@ -2018,7 +2018,7 @@ class unyt_array(np.ndarray):
                         )
                     if (
                         unit_operator is _preserve_units
-                        and u0.dimensions is temperature
+                        and u0.dimensions == temperature
                         and u0.base_offset == 0.0
                         and u1.base_offset != 0.0
                     ):
@@ -2049,9 +2049,9 @@ class unyt_array(np.ndarray):
                 # refuse before anything is written to an out= buffer
                 if (
                     u0.base_offset
-                    and u0.dimensions is temperature
+                    and u0.dimensions == temperature
                     or u1.base_offset
-                    and u1.dimensions is temperature
+                    and u1.dimensions == temperature
                 ):
                     raise InvalidUnitOperation(
                         "Quantities with units of Fahrenheit or Celsius "
